@@ -351,3 +351,68 @@ func VerifC05Recover() {
 	rt.Reach("c05.recover.rollback")
 	verifC05Restart(w, pos, ltx.Pos{TXID: pos.TXID + 1}, img, nil)
 }
+
+// VerifC05FirstTx: the process dies at any file-system step of the very first
+// transaction of a database created from nothing. After a restart the database
+// is either still empty at position 0 (no transaction file) or holds exactly
+// the first transaction at position 1 - never pages of an unpublished transaction.
+func VerifC05FirstTx() {
+	ctx := context.Background()
+	w := verifNewStore(true)
+	db, dbf, err := w.store.CreateDB("db")
+	rt.Check(err == nil, "CreateDB")
+	w.db = db
+	n := 1 + rt.Choose("pages", 2)
+	mode := rt.Choose("journal.mode", 3)
+	k := rt.Choose("crash.at", verifC05MaxOps)
+	img := make([][]byte, n)
+	for i := range img {
+		img[i] = rt.Bytes("first", verifP)
+	}
+	verifHeaderPage(img[0], uint32(n), false)
+	nonce := rt.U32("nonce")
+	crashed := verifC05Crashed(k, func() {
+		jf, err := db.CreateJournal()
+		must(err)
+		// original size 0: the journal is a header and nothing else
+		must(db.WriteJournalAt(ctx, jf, verifJournalHeader(0, nonce, 0), 0, 1))
+		for p := 1; p <= n; p++ {
+			must(db.WriteDatabaseAt(ctx, dbf, img[p-1], int64(p-1)*verifP, 1))
+		}
+		switch mode {
+		case 0:
+			must(db.RemoveJournal(ctx))
+		case 1:
+			must(db.TruncateJournal(ctx))
+		case 2:
+			must(db.WriteJournalAt(ctx, jf, make([]byte, SQLITE_JOURNAL_HEADER_SIZE), 0, 1))
+		}
+	})
+	if !crashed {
+		if k != verifC05MaxOps-1 {
+			rt.Assume(false)
+		}
+		rt.Check(db.Pos().TXID == 1, "uninterrupted first commit")
+		rt.Reach("c05.first.nocrash")
+	} else {
+		rt.Reach("c05.first.crash")
+	}
+	published := verifNewestIs(db, 1, 1)
+	store2 := NewStore(w.dir, true)
+	store2.Exit = func(code int) { w.exits = append(w.exits, code) }
+	db2 := NewDB(store2, "db", db.Path())
+	rt.Check(db2.Open() == nil, "restart on the same data directory succeeds")
+	rt.Check(len(w.exits) == 0, "no fatal exit during restart")
+	w2 := &verifWorld{dir: w.dir, store: store2, db: db2}
+	if published {
+		rt.Check(db2.Pos() == ltx.Pos{TXID: 1, PostApplyChecksum: verifSpecChecksum(img)}, "first transaction file on disk: position 1 with its checksum")
+		verifC01CheckImage(w2, img, "first transaction file on disk: exactly its image")
+		rt.Reach("c05.first.after")
+	} else {
+		rt.Check(db2.Pos().TXID == 0, "no transaction file on disk: position 0")
+		cur := w2.verifReadImage()
+		rt.Check(len(cur) == 0 && db2.PageN() == 0, "no transaction file on disk: the database is empty again - no page of the unpublished transaction survives")
+		rt.Reach("c05.first.before")
+	}
+	rt.Check(verifGone(db2.JournalPath()), "no hot journal is left for SQLite")
+}
